@@ -749,7 +749,20 @@ def validate_rule(ctx: Ctx, rid: str) -> None:
         env.vars["self.max_depth"] = M
         env.hooks.append(lambda e_, cl: m if call_name(cl) == "get_min_tree_depth" else None)
         env.hooks.append(make_inline_hook(prog, c, v.module, skip=("get_min_tree_depth",)))
-        outs = interp(v.node.body, env)
+        body_ = v.node.body
+        stmts_ = [b_ for b_ in body_ if not (isinstance(b_, ast.Expr) and isinstance(b_.value, ast.Constant))]
+        vnode = v
+        if len(stmts_) == 1 and isinstance(stmts_[0], (ast.Expr, ast.Return)) and isinstance(stmts_[0].value, ast.Call) and isinstance(stmts_[0].value.func, ast.Name):
+            # validate delegates to a module-level function (shared by several deciders): that function is analysed with the arguments bound
+            dcall = stmts_[0].value
+            full_ = prog.resolve_name(v.module, dcall.func.id)
+            g_ = prog.functions.get(full_) if full_ else None
+            if g_ is not None and g_.cls is None and isinstance(g_.node, ast.FunctionDef):
+                for p_, a_ in list(zip(g_.params, dcall.args)) + [(k_.arg, k_.value) for k_ in dcall.keywords if k_.arg in g_.params]:
+                    if is_self_attr(a_, "max_depth"):
+                        env.vars[p_] = M
+                body_, vnode = g_.node.body, g_
+        outs = interp(body_, env)
         raising = [o for o in outs if o.kind == "raise"]
         passing = [o for o in outs if o.kind in ("return", "fallthrough")]
         other = [o for o in outs if o.kind == "unsupported"]
@@ -775,7 +788,7 @@ def validate_rule(ctx: Ctx, rid: str) -> None:
         ctx.ob(rid, v, v.node, f"{owner}.validate raises for every infeasible limit", b_bad is None,
                b_bad[0] if b_bad else "", witness=b_bad[1] if b_bad else None)
         # the raised error is the library's
-        for r in [x for x in walk_local(v.node) if isinstance(x, ast.Raise)]:
+        for r in [x for x in walk_local(vnode.node) if isinstance(x, ast.Raise)]:
             d = dotted(r.exc.func if isinstance(r.exc, ast.Call) else r.exc) if r.exc is not None else None
             okk = d is not None and d.split(".")[-1] == "GeneticEngineError"
             ctx.ob(rid, v, r, f"{owner}.validate raises the library error", okk, "" if okk else f"raises {d}")
